@@ -6,6 +6,9 @@ extern int g_d2_rmask, g_d2_zmask, g_d2_bc_calls, g_d2_bc_ok, g_d2_wmask;
 #define VC_F2(k) ((const void *)((const fp2_t *)g_d2_dst)[k])        /* k-th quadratic coefficient of the object (fp6: 0..2, fp12: 3*i+j) */
 #define VC_F6(k) ((const void *)((const fp6_t *)g_d2_dst)[k])
 #define VC_AT(off) ((const void *)((const uint8_t *)g_d2_bin0 + (off)))
+/* the length fp12_size_bin advertises, as a function of the compression request and the unitarity verdict; used by the contracts of
+   fp12_size_bin AND fp12_write_bin */
+#define VC_FP12_ADV(pack, cyc) (((pack) && (cyc) == 1) ? 8 * VC_B : 12 * VC_B)
 
 #include "vc_spec_push.h"
 #ifdef VC_C07X_FP6R
@@ -31,32 +34,33 @@ __CPROVER_ensures((len == 6 * VC_B && g_d2_cal_err == 0) ==> g_ctx.code == RLC_O
 
 #ifdef VC_C07X_FP12R
 #define VC_RD12(k, off) (((const void *)a == VC_F2(k) && (const void *)bin == VC_AT(off)) ? (1 << (k)) : 0)
-void fp2_zero_t(fp2_t a) VC_ASSIGNS(__CPROVER_object_upto(a, sizeof(fp2_t)), g_d2_zmask)
-__CPROVER_ensures(g_d2_zmask == (__CPROVER_old(g_d2_zmask) | ((const void *)a == VC_F2(0) ? 1 : 0) | ((const void *)a == VC_F2(4) ? 16 : 0) | (((const void *)a != VC_F2(0) && (const void *)a != VC_F2(4)) ? 64 : 0)));
+/* every callee that writes to the object resets the membership verdict: a verdict that survives was given after the last write */
+void fp2_zero_t(fp2_t a) VC_ASSIGNS(__CPROVER_object_upto(a, sizeof(fp2_t)), g_d2_zmask, g_d2_cyc)
+__CPROVER_ensures(g_d2_cyc == VC_UNASKED && g_d2_zmask == (__CPROVER_old(g_d2_zmask) | ((const void *)a == VC_F2(0) ? 1 : 0) | ((const void *)a == VC_F2(4) ? 16 : 0) | (((const void *)a != VC_F2(0) && (const void *)a != VC_F2(4)) ? 64 : 0)));
 void fp2_read_bin_t(fp2_t a, const uint8_t *bin, size_t len)
 __CPROVER_requires(__CPROVER_is_fresh(bin, len) && len == 2 * VC_B)
-VC_ASSIGNS(__CPROVER_object_upto(a, sizeof(fp2_t)), g_d2_rmask, g_d2_rcalls, g_d2_cal_err, g_ctx.code)
-__CPROVER_ensures(g_d2_rcalls == __CPROVER_old(g_d2_rcalls) + 1 && VC_ERRFLOW(g_d2_cal_err))
+VC_ASSIGNS(__CPROVER_object_upto(a, sizeof(fp2_t)), g_d2_rmask, g_d2_rcalls, g_d2_cal_err, g_d2_cyc, g_ctx.code)
+__CPROVER_ensures(g_d2_rcalls == __CPROVER_old(g_d2_rcalls) + 1 && g_d2_cyc == VC_UNASKED && VC_ERRFLOW(g_d2_cal_err))
 __CPROVER_ensures(g_d2_rmask == (__CPROVER_old(g_d2_rmask) | VC_RD12(1, 0) | VC_RD12(2, 2 * VC_B) | VC_RD12(3, 4 * VC_B) | VC_RD12(5, 6 * VC_B)));
 void fp6_read_bin_t(fp6_t a, const uint8_t *bin, size_t len)
 __CPROVER_requires(__CPROVER_is_fresh(bin, len) && len == 6 * VC_B)
-VC_ASSIGNS(__CPROVER_object_upto(a, sizeof(fp6_t)), g_d2_rx, g_d2_ry, g_d2_wcalls, g_d2_cal_err, g_ctx.code)
-__CPROVER_ensures(g_d2_wcalls == __CPROVER_old(g_d2_wcalls) + 1 && VC_ERRFLOW(g_d2_cal_err))
+VC_ASSIGNS(__CPROVER_object_upto(a, sizeof(fp6_t)), g_d2_rx, g_d2_ry, g_d2_wcalls, g_d2_cal_err, g_d2_cyc, g_ctx.code)
+__CPROVER_ensures(g_d2_wcalls == __CPROVER_old(g_d2_wcalls) + 1 && g_d2_cyc == VC_UNASKED && VC_ERRFLOW(g_d2_cal_err))
 __CPROVER_ensures(g_d2_rx == (((const void *)a == VC_F6(0) && (const void *)bin == VC_AT(0)) ? 1 : __CPROVER_old(g_d2_rx)))
 __CPROVER_ensures(g_d2_ry == (((const void *)a == VC_F6(1) && (const void *)bin == VC_AT(6 * VC_B)) ? 1 : __CPROVER_old(g_d2_ry)));
-void fp12_back_cyc_t(fp12_t c, const fp12_t a) VC_ASSIGNS(__CPROVER_object_upto(c, sizeof(fp12_t)), g_d2_bc_calls, g_d2_bc_ok, g_d2_cal_err, g_ctx.code)
-__CPROVER_ensures(g_d2_bc_calls == __CPROVER_old(g_d2_bc_calls) + 1 && VC_ERRFLOW(g_d2_cal_err))
+void fp12_back_cyc_t(fp12_t c, const fp12_t a) VC_ASSIGNS(__CPROVER_object_upto(c, sizeof(fp12_t)), g_d2_bc_calls, g_d2_bc_ok, g_d2_cal_err, g_d2_cyc, g_ctx.code)
+__CPROVER_ensures(g_d2_bc_calls == __CPROVER_old(g_d2_bc_calls) + 1 && g_d2_cyc == VC_UNASKED && VC_ERRFLOW(g_d2_cal_err))
 __CPROVER_ensures(g_d2_bc_ok == ((const void *)c == g_d2_dst && (const void *)a == g_d2_dst && g_d2_rmask == 46 && g_d2_rcalls == 4 && g_d2_zmask == 17));
 int fp12_test_cyc_t(const fp12_t a) VC_ASSIGNS(g_d2_cyc, g_d2_cyc_calls)
 __CPROVER_ensures((__CPROVER_return_value == 0 || __CPROVER_return_value == 1) && g_d2_cyc_calls == __CPROVER_old(g_d2_cyc_calls) + 1)
-__CPROVER_ensures(g_d2_cyc == (((const void *)a == g_d2_dst && g_d2_bc_calls == 1) ? __CPROVER_return_value : 2));
+__CPROVER_ensures(g_d2_cyc == (((const void *)a == g_d2_dst && g_d2_bc_calls == 1 && g_d2_bc_ok == 1) ? __CPROVER_return_value : 2));
 
 /* dodecic-extension / target-group element: 12B bytes = the two sextic halves through the F_p^6 decoder at offsets 0 and 6B (exactly
    two decodings, nothing else); 8B bytes (compressed unitary element) = coefficients [0][0] and [1][1] cleared, [0][1], [0][2], [1][0],
    [1][2] through the F_p^2 decoder at offsets 0, 2B, 4B, 6B (2B bytes each, exactly four decodings), then decompressed in place exactly
-   once, after all of that; any other length: error and the output is untouched; no error of its own otherwise.
-   With -DVC_C07X_STRICT: the clause the property demands in addition and the code does not meet (finding "fp12_read_bin compressed
-   form"): the decompressed element was tested for membership in the cyclotomic subgroup and the test returned true. */
+   once, after all of that; no error reported ==> membership in the cyclotomic subgroup was tested once, on THE RESULT OBJECT, after
+   the last write to it, and the test returned true; any other length: error and the output is untouched; no error of its own
+   otherwise. */
 void fp12_read_bin(fp12_t a, const uint8_t *bin, size_t len)
 __CPROVER_requires(len <= 12 * VC_B + 2 && __CPROVER_is_fresh(a, sizeof(fp12_t)) && __CPROVER_is_fresh(bin, len))
 __CPROVER_requires(g_may_throw == 1 && g_ctx.code == RLC_OK && g_d2_bin0 == bin && g_d2_dst == (const void *)a && g_d2_rmask == 0 && g_d2_zmask == 0 && g_d2_rcalls == 0 && g_d2_wcalls == 0 && g_d2_rx == 0 && g_d2_ry == 0 \
@@ -65,23 +69,26 @@ __CPROVER_requires(gk < 12 * RLC_FP_DIGS ==> ((const dig_t *)a)[gk] == g_dig0)
 VC_ASSIGNS(__CPROVER_object_upto(a, sizeof(fp12_t)), g_d2_rmask, g_d2_zmask, g_d2_rcalls, g_d2_wcalls, g_d2_rx, g_d2_ry, g_d2_bc_calls, g_d2_bc_ok, g_d2_cal_err, g_d2_cyc, g_d2_cyc_calls, \
 	g_ctx.code, g_ctx.last, g_ctx.caught, g_ctx.error, g_ctx.number, g_thrown)
 __CPROVER_ensures(g_ctx.code == RLC_OK || g_ctx.code == RLC_ERR)
-__CPROVER_ensures((len != 8 * VC_B && len != 12 * VC_B) ==> (g_ctx.code == RLC_ERR && g_d2_rcalls == 0 && g_d2_wcalls == 0 && g_d2_zmask == 0 && g_d2_bc_calls == 0 && (gk < 12 * RLC_FP_DIGS ==> ((const dig_t *)a)[gk] == g_dig0)))
-__CPROVER_ensures(len == 12 * VC_B ==> (g_d2_rx == 1 && g_d2_ry == 1 && g_d2_wcalls == 2 && g_d2_rcalls == 0 && g_d2_zmask == 0 && g_d2_bc_calls == 0))
+__CPROVER_ensures((len != 8 * VC_B && len != 12 * VC_B) ==> (g_ctx.code == RLC_ERR && g_d2_rcalls == 0 && g_d2_wcalls == 0 && g_d2_zmask == 0 && g_d2_bc_calls == 0 && g_d2_cyc_calls == 0 && (gk < 12 * RLC_FP_DIGS ==> ((const dig_t *)a)[gk] == g_dig0)))
+__CPROVER_ensures(len == 12 * VC_B ==> (g_d2_rx == 1 && g_d2_ry == 1 && g_d2_wcalls == 2 && g_d2_rcalls == 0 && g_d2_zmask == 0 && g_d2_bc_calls == 0 && g_d2_cyc_calls == 0))
 __CPROVER_ensures(len == 8 * VC_B ==> (g_d2_rmask == 46 && g_d2_rcalls == 4 && g_d2_zmask == 17 && g_d2_bc_calls == 1 && g_d2_bc_ok == 1 && g_d2_wcalls == 0))
-__CPROVER_ensures(((len == 8 * VC_B || len == 12 * VC_B) && g_d2_cal_err == 0) ==> g_ctx.code == RLC_OK)
-#ifdef VC_C07X_STRICT
-__CPROVER_ensures((g_ctx.code == RLC_OK && len == 8 * VC_B) ==> g_d2_cyc == 1)
-#endif
+/* the property's clause */
+__CPROVER_ensures((g_ctx.code == RLC_OK && len == 8 * VC_B) ==> (g_d2_cyc == 1 && g_d2_cyc_calls == 1))
+__CPROVER_ensures((len == 12 * VC_B && g_d2_cal_err == 0) ==> g_ctx.code == RLC_OK)
+__CPROVER_ensures((len == 8 * VC_B && g_d2_cal_err == 0 && g_d2_cyc == 1) ==> g_ctx.code == RLC_OK)
 ;
 #endif
 
 #ifdef VC_C07X_FP12W
-#define VC_FP12W_NEED (g_d2_pack ? 8 * VC_B : 12 * VC_B)
+#define VC_FP12W_NEED VC_FP12_ADV(g_d2_pack, g_d2_cyc)
 #define VC_NOOFF ((size_t)-1)
 /* offset of a callee's buffer inside the buffer under proof, if it is one of the expected ones */
 #define VC_OFF12 ((const void *)bin == VC_AT(0) ? (size_t)0 : (const void *)bin == VC_AT(2 * VC_B) ? (size_t)(2 * VC_B) : (const void *)bin == VC_AT(4 * VC_B) ? (size_t)(4 * VC_B) : (const void *)bin == VC_AT(6 * VC_B) ? (size_t)(6 * VC_B) : VC_NOOFF)
 #define VC_OFF6 ((const void *)bin == VC_AT(0) ? (size_t)0 : (const void *)bin == VC_AT(6 * VC_B) ? (size_t)(6 * VC_B) : VC_NOOFF)
 #define VC_WR12(k, off) (((const void *)a == VC_F2(k) && (const void *)bin == VC_AT(off)) ? (1 << (k)) : 0)
+int fp12_test_cyc_u(const fp12_t a) VC_ASSIGNS(g_d2_cyc, g_d2_cyc_calls)
+__CPROVER_ensures((__CPROVER_return_value == 0 || __CPROVER_return_value == 1) && g_d2_cyc_calls == __CPROVER_old(g_d2_cyc_calls) + 1)
+__CPROVER_ensures(g_d2_cyc == (((const void *)a == g_d2_dst && g_d2_wcalls == 0 && g_d2_rcalls == 0) ? __CPROVER_return_value : 2));
 void fp12_pck_u(fp12_t c, const fp12_t a) VC_ASSIGNS(__CPROVER_object_upto(c, sizeof(fp12_t)), g_d2_pck_calls, g_d2_pck_ok)
 __CPROVER_ensures(g_d2_pck_calls == __CPROVER_old(g_d2_pck_calls) + 1 && g_d2_pck_ok == ((const void *)a == g_d2_dst && (const void *)c != g_d2_dst));
 void fp2_write_bin_u(uint8_t *bin, size_t len, const fp2_t a, int pack)
@@ -94,21 +101,22 @@ __CPROVER_ensures(g_d2_rcalls == __CPROVER_old(g_d2_rcalls) + 1 && VC_ERRFLOW(g_
 __CPROVER_ensures(g_d2_wx == (((const void *)a == VC_F6(0) && (const void *)bin == VC_AT(0) && len == 6 * VC_B) ? 1 : __CPROVER_old(g_d2_wx)))
 __CPROVER_ensures(g_d2_wy == (((const void *)a == VC_F6(1) && (const void *)bin == VC_AT(6 * VC_B) && len == 6 * VC_B) ? 1 : __CPROVER_old(g_d2_wy)));
 
-/* length demanded: 8B when compression is requested, else 12B - exactly (a return at all ==> len is that length; the only error of its
-   own is the wrong-length error, raised before anything is written: longjmp stub).  Compressed: coefficients [0][1], [0][2], [1][0],
-   [1][2] OF THE ARGUMENT through the F_p^2 encoder, uncompressed (2B bytes), at offsets 0, 2B, 4B, 6B; exactly four encodings.
-   Uncompressed: the two sextic halves through the F_p^6 encoder at 0 and 6B; exactly two.
-   NOT claimed (the code does not do it, see the report, finding "fp12_write_bin with pack on a non-unitary element"): agreement with the
-   length fp12_size_bin advertises, which is 12B for a non-unitary element even when compression is requested. */
+/* length demanded = the length fp12_size_bin advertises (VC_FP12_ADV: 8B iff compression is requested and the unitarity test, asked
+   about THE ARGUMENT before anything is written, returned true; else 12B) - exactly: a return at all ==> len is that length; the only
+   error of its own is the wrong-length error, raised before anything is written (longjmp stub).  The compressed branch is taken iff
+   pack and the recorded verdict is 1: coefficients [0][1], [0][2], [1][0], [1][2] OF THE ARGUMENT through the F_p^2 encoder,
+   uncompressed (2B bytes), at offsets 0, 2B, 4B, 6B; exactly four encodings.  Otherwise: the two sextic halves through the F_p^6
+   encoder at 0 and 6B; exactly two.  The unitarity test is not asked when compression is not requested. */
 void fp12_write_bin(uint8_t *bin, size_t len, const fp12_t a, int pack)
 __CPROVER_requires(len <= 12 * VC_B + 2 && __CPROVER_is_fresh(bin, len) && __CPROVER_is_fresh(a, sizeof(fp12_t)))
 __CPROVER_requires(g_may_throw == 1 && g_ctx.code == RLC_OK && g_d2_bin0 == bin && g_d2_dst == (const void *)a && g_d2_len == len && g_d2_pack == (pack != 0))
-__CPROVER_requires(g_d2_pck_calls == 0 && g_d2_pck_ok == 0 && g_d2_wmask == 0 && g_d2_wcalls == 0 && g_d2_rcalls == 0 && g_d2_wx == 0 && g_d2_wy == 0 && g_d2_cal_err == 0)
-VC_ASSIGNS(__CPROVER_object_upto(bin, len), g_d2_pck_calls, g_d2_pck_ok, g_d2_wmask, g_d2_wcalls, g_d2_rcalls, g_d2_wx, g_d2_wy, g_d2_cal_err, g_ctx.code, g_ctx.last, g_ctx.caught, g_ctx.error, g_ctx.number, g_thrown)
+__CPROVER_requires(g_d2_pck_calls == 0 && g_d2_pck_ok == 0 && g_d2_wmask == 0 && g_d2_wcalls == 0 && g_d2_rcalls == 0 && g_d2_wx == 0 && g_d2_wy == 0 && g_d2_cal_err == 0 && g_d2_cyc == VC_UNASKED && g_d2_cyc_calls == 0)
+VC_ASSIGNS(__CPROVER_object_upto(bin, len), g_d2_pck_calls, g_d2_pck_ok, g_d2_wmask, g_d2_wcalls, g_d2_rcalls, g_d2_wx, g_d2_wy, g_d2_cal_err, g_d2_cyc, g_d2_cyc_calls, g_ctx.code, g_ctx.last, g_ctx.caught, g_ctx.error, g_ctx.number, g_thrown)
 __CPROVER_ensures(g_ctx.code == RLC_OK || g_ctx.code == RLC_ERR)
+__CPROVER_ensures(pack ? (g_d2_cyc_calls == 1 && (g_d2_cyc == 0 || g_d2_cyc == 1)) : g_d2_cyc_calls == 0)
 __CPROVER_ensures(len == VC_FP12W_NEED)
 __CPROVER_ensures(g_d2_cal_err == 0 ==> g_ctx.code == RLC_OK)
-__CPROVER_ensures(pack ? (g_d2_wmask == 46 && g_d2_wcalls == 4 && g_d2_rcalls == 0) : (g_d2_wx == 1 && g_d2_wy == 1 && g_d2_rcalls == 2 && g_d2_wcalls == 0 && g_d2_pck_calls == 0))
+__CPROVER_ensures((pack && g_d2_cyc == 1) ? (g_d2_wmask == 46 && g_d2_wcalls == 4 && g_d2_rcalls == 0) : (g_d2_wx == 1 && g_d2_wy == 1 && g_d2_rcalls == 2 && g_d2_wcalls == 0 && g_d2_pck_calls == 0))
 ;
 #endif
 
@@ -121,7 +129,7 @@ int fp12_size_bin(fp12_t a, int pack)
 __CPROVER_requires(__CPROVER_is_fresh(a, sizeof(fp12_t)) && g_d2_dst == (const void *)a && g_d2_cyc == VC_UNASKED && g_d2_cyc_calls == 0)
 VC_ASSIGNS(g_d2_cyc, g_d2_cyc_calls)
 __CPROVER_ensures(pack ? (g_d2_cyc_calls == 1 && (g_d2_cyc == 0 || g_d2_cyc == 1)) : g_d2_cyc_calls == 0)
-__CPROVER_ensures(__CPROVER_return_value == ((pack && g_d2_cyc == 1) ? 8 * VC_B : 12 * VC_B))
+__CPROVER_ensures(__CPROVER_return_value == VC_FP12_ADV(pack, g_d2_cyc))
 ;
 #endif
 #include "vc_spec_pop.h"
